@@ -43,7 +43,7 @@ pub fn judge_load(bytes: &[u8]) -> Result<bool, (String, String)> {
                 let nl = bytes.iter().filter(|&&c| c == b'\n').count() + 2;
                 let file = e.lines().nth(1).and_then(|l| l.split(':').next()).unwrap_or("").to_string();
                 let bound = if file == "build.ninja" { nl } else { 1_000_000 };
-                if let Err(why) = check_parse_error_shape(&e, &file, bound) {
+                if let Err(why) = check_parse_error_shape_x(&e, &file, bound, std::str::from_utf8(bytes).is_ok()) {
                     return Err(("diagnostic-shape".into(), format!("loading {:?}: malformed syntax diagnostic ({}): {:?}", shown(), why, e)));
                 }
             }
@@ -336,7 +336,8 @@ impl Check for C12 {
     }
     fn run_replay(&mut self, _part: &str, replay: &Value, env: &mut Env) -> CaseOut {
         prepare_dir(env);
-        let bytes: Vec<u8> = match &replay["manifest_bytes"] {
+        let raw = if replay["raw_bytes"].is_array() { &replay["raw_bytes"] } else { &replay["manifest_bytes"] };
+        let bytes: Vec<u8> = match raw {
             Value::Array(a) => a.iter().map(|x| x.as_u64().unwrap_or(0) as u8).collect(),
             Value::String(s) => s.as_bytes().to_vec(),
             _ => vec![],
